@@ -63,8 +63,11 @@ class InternalCompiler(Compiler):
             self.expqmap[sym] = iret
             qc.map_qubit(sym, iret, promote=not is_temp)
 
-            # 2.3 Remove all the temp qubits
-            self.expqmap.remove(qc.uncompute())
+            # 2.3 Remove all the temp qubits; the value of a temporary symbol stays on an ancilla
+            # that is uncomputed later, by replaying the gates that computed it: until then the
+            # qubits it was computed from must keep their values
+            if not is_temp:
+                self.expqmap.remove(qc.uncompute())
 
         # 3. Remove identities gates (ie: X - X)
         qc.remove_identities()
